@@ -61,7 +61,8 @@ CHECKS["C04"] = ("Proof: C04.created_image_is_well_formed — for every source l
                  "ending in C1..C8, no shared block, used = chains, <= 255 bytes in a last sector); consistent_side_passes_fsck (every side "
                  "satisfying the invariant of C05); independent_reader_agrees (the decoder written from the layout lists every live entry with, as "
                  "content, exactly the bytes the tool's reader returns, 255 per sector along the chain); geometry of save for both flavours and FF "
-                 "padding of .sd slots, kind/flag dispatch table = documented table, 32-byte entry layout. Tie/oracle: created images vs model, "
+                 "padding of .sd slots, kind/flag dispatch table = documented table, 32-byte entry layout; generated_status_functions (the status "
+                 "tests and usage rule translated from block_allocation.py on every run = the model's, for every status). Tie/oracle: created images vs model, "
                  "decoded by two independent readers (Lean Spec.Dos and a Python twin) that must agree with each other and with the sources.", D, "7 C04")
 CHECKS["C05"] = ("Proof: C05.every_history_consistent / every_archive_consistent — after --create and ANY sequence of --add invocations (any sources, "
                  "sizes, end-of-side markers, refusals) every side satisfies the invariant SideInv (geometry, readable table, track 20 reserved, every "
